@@ -423,3 +423,50 @@ def seed_from_env(default=1):
         return int(os.environ.get("VERIF_SEED", default))
     except ValueError:
         return default
+
+
+def run_vh_sharded(args, shards, **kw):
+    """Run a driver as `shards` parallel processes (-shard i -shards n) and merge the results."""
+    import concurrent.futures as cf
+    build_harness(race=kw.get("race", False))
+    with cf.ThreadPoolExecutor(max_workers=shards) as ex:
+        futs = [ex.submit(run_vh, list(args) + ["-shard", str(i), "-shards", str(shards)], **kw) for i in range(shards)]
+        results = [f.result() for f in futs]
+    return merge_results(results)
+
+
+def merge_results(results):
+    out = dict(behaviours=0, steps=0, distinct=0, drift=0, viol_count=0, violations=[], samples=[], drift_samples=[],
+               states=0, transitions=0, extra={})
+    seen = set()
+    for r in results:
+        for k in ("behaviours", "steps", "distinct", "drift", "viol_count"):
+            out[k] += r.get(k, 0)
+        out["states"] = max(out["states"], r.get("states", 0))
+        out["transitions"] = max(out["transitions"], r.get("transitions", 0))
+        for vi in r.get("violations", []):
+            key = json.dumps(vi["sig"], sort_keys=True)
+            if key not in seen:
+                seen.add(key)
+                out["violations"].append(vi)
+        out["samples"] += r.get("samples", [])[:2]
+        out["drift_samples"] += r.get("drift_samples", [])[:1]
+        for k, v in (r.get("extra") or {}).items():
+            if isinstance(v, dict):
+                d = out["extra"].setdefault(k, {})
+                for kk, vv in v.items():
+                    d[kk] = d.get(kk, 0) + vv if isinstance(vv, (int, float)) else vv
+            elif isinstance(v, (int, float)):
+                out["extra"][k] = out["extra"].get(k, 0) + v
+            else:
+                out["extra"][k] = v
+    return out
+
+
+def sim_states(res):
+    """number of states a -simulate run generated (from TLC's summary line)"""
+    for l in res.get("out_tail", []):
+        m = re.search(r"number of states generated: (\d+)", l)
+        if m:
+            return int(m.group(1))
+    return res.get("edges", 0)
